@@ -107,6 +107,45 @@ TABLE.update({
  ]),
 })
 
+TABLE["C02"][2].extend([
+   ("ab_check_sound", "C02_checker_sound", "the executable address-book checker is sound: if it computes true on an exported unfolded graph and folded graph, the address book is consistent"),
+   ("checked_fold_sound", "C02_checked_fold", "hence every slice of every folded module equals the corresponding unfolded module's value, for all module functions (layers, semirings), parameters and inputs"),
+   ("checked_outputs_sound", "C02_outputs_sound", "and the gathered graph outputs equal the unfolded outputs in the declared order"),
+])
+TABLE["C02"] = (TABLE["C02"][0], ["Gen", "Fold", "FoldCheck"], TABLE["C02"][2])
+TABLE.update({
+ "C01": ("the compiled circuit computes the denotation, in every semiring", ["Base", "Circ", "Hom", "Gen", "Fold", "FoldCheck"], [
+   ("hom_eval", "C01_hom_eval", "evaluation commutes with every semiring homomorphism h: evaluating the h-image of a circuit gives the h-image of its values (h = exp from the log semiring, h = fst from dual numbers, h = conj); hence one denotation serves all semirings"),
+   ("checked_fold_sound", "C01_folded_evaluation", "address-book evaluation of a checked folded graph equals plain evaluation, slice by slice"),
+ ]),
+ "C13": ("gradients: forward-mode (dual-number) evaluation", ["Base", "Circ", "Hom"], [
+   ("dual_semiring", "C13_dual_semiring", "dual numbers over a commutative semiring form a commutative semiring, so every theorem about circuits (denotation, folding, operators) holds for value-and-tangent evaluation"),
+   ("dual_primal", "C13_dual_primal", "the primal part of the dual-number evaluation is the ordinary evaluation"),
+   ("dual_const", "C13_constants_zero_tangent", "a circuit whose parameters carry zero tangent has zero tangent"),
+   ("snd_dmul", "C13_leibniz", "the tangent of a product follows the Leibniz rule"),
+   ("horner_dual", "C13_polynomial_derivative", "a polynomial evaluated at (x, 1) gives (p(x), p'(x)) with p' the formal derivative computed by the model's PolynomialDifferential"),
+ ]),
+ "C14": ("parameter operators: algebraic laws the operator rules rest on", ["Base", "Circ", "Multiply", "Algebra", "Hom"], [
+   ("horner_conv", "C14_polynomial_product", "coefficient convolution evaluates to the product of the polynomials"),
+   ("horner_conv_rows", "C14_polynomial_product_rows", "... row pairs in Kronecker order"),
+   ("col_outer", "C14_outer_product_columns", "the outer product along axis 0 of two matrices, read at a column, is the Kronecker product of the two columns"),
+   ("vsum_states", "C14_reduce_sum_states", "reduce-sum over the state axis is the sum of the lookups over all states"),
+   ("dot_kron", "C14_kronecker_mixed_product", "mixed-product law of the Kronecker product"),
+   ("nth_pdiff1", "C14_polynomial_differential", "entry i of the differentiated coefficients is (i+1) times coefficient i+1"),
+ ]),
+ "C15": ("sampling draws from the distribution the circuit encodes", ["Base", "Circ", "Sampling"], [
+   ("sampling_law", "C15_sampling_law", "for every ok circuit with univariate inputs over finite domains, the total weight of the ancestral-sampling outcomes consistent with an assignment equals the value of the circuit at that assignment, for every node and unit"),
+   ("sampling_support", "C15_support", "every sampled value lies in the domain of its variable"),
+   ("sampling_columns", "C15_columns", "every outcome of a node assigns exactly the variables of that node's scope"),
+ ]),
+ "C20": ("templates compute their formulas", ["Base", "Circ", "Multiply", "Algebra"], [
+   ("cp_circuit_correct", "C20_cp", "the CP template circuit evaluates to sum_k w_k prod_j a_j[k]"),
+   ("tucker_kronn", "C20_tucker", "a Tucker (Kronecker + sum) layer contracts the core with one more factor at a time"),
+   ("tucker2", "C20_tucker_order2", "order-2 Tucker as the explicit double sum"),
+   ("hmm_correct", "C20_hmm", "the chain circuit evaluates to the forward-algorithm recursion"),
+ ]),
+})
+
 if __name__ == "__main__":
     for pid in (sys.argv[1:] or TABLE):
         gen(pid, *TABLE[pid])
